@@ -431,26 +431,24 @@ fn ref_read(var: &c05::Var, b: &[u8]) -> Option<(Val, usize)> {
 /// reference encoding of its value (c05 `ref_enc`): two encodings of one NLRI (FlowSpec length in
 /// one or two octets, a route target length that is not a multiple of 8, any VPLS length field)
 /// compare equal; `true` = the octets end with the last item
-fn ref_items(f: Fam, mut b: &[u8]) -> (Vec<Vec<u8>>, bool) {
+fn ref_items(f: Fam, b: &[u8]) -> (Vec<Vec<u8>>, bool) { let (o, c, _) = ref_items_tol(f, b); (o, c) }
+
+/// `ref_items`, and whether the list stopped at an item that is outside what the RFCs define although
+/// the unchanged parser reads it (c05 `wire_tolerated` / `ref_tolerated`: a route-target length other
+/// than 0 / 32..=96 bits, a VPLS length field other than 17): an implementation may accept or reject
+/// such an item, so from that item on nothing is demanded.
+fn ref_items_tol(f: Fam, mut b: &[u8]) -> (Vec<Vec<u8>>, bool, bool) {
     let var = fam_var(f);
     let mut out = Vec::new();
     while !b.is_empty() {
+        if c05::wire_tolerated(var.shape, var.ap, b) { return (out, false, true); }
         match ref_read(var, b) {
-            // a route target read from a bit count of 249..=255 has 32 octets; 8 * 32 does not fit the
-            // length octet, the closest (and what reads back as the same 32 octets) is 255
-            Some((v, n)) if var.shape == Shape::Rt && v.raw.len() == 32 => {
-                let mut e = Vec::new();
-                if let Some(p) = v.pid { e.extend_from_slice(&(p as u32).to_be_bytes()); }
-                e.push(0xff);
-                e.extend_from_slice(&v.raw);
-                out.push(e);
-                b = &b[n..];
-            }
             Some((v, n)) if ref_wf(var.shape, var.v6, &v) => { out.push(ref_enc(var.shape, &v)); b = &b[n..]; }
-            _ => return (out, false),
+            Some((v, _)) if c05::ref_tolerated(var.shape, var.v6, &v) => return (out, false, true),
+            _ => return (out, false, false),
         }
     }
-    (out, true)
+    (out, true, false)
 }
 
 // ---------------------------------------------------------------------------
@@ -461,7 +459,9 @@ fn ref_items(f: Fam, mut b: &[u8]) -> (Vec<Vec<u8>>, bool) {
 /// width-dependent attribute
 fn exec_re(attrs: &[u8], two: Option<bool>) -> String {
     let raw = mk_pdu(&[], attrs, &[]);
-    if raw.len() > MAX_PDU { return "bad-op".into(); }
+    // UpdateMessage::from_octets has no 4096-octet rule (that is the framing layer's, C09): an
+    // UPDATE is accepted up to what the length field can say
+    if raw.len() > 65535 { return "bad-op".into(); }
     if let Some(w) = two { if has_width_dependent(attrs) != w { return "bad-op".into(); } }
     let sc = if two.is_some() { SessionConfig::legacy() } else { SessionConfig::modern() };
     let pdu = match UpdateMessage::from_octets(raw, &sc) { Ok(p) => p, Err(_) => return "rej".into() };
@@ -591,13 +591,17 @@ fn oracle_re(attrs: &[u8], reply: &str, four: bool) -> Result<(), String> {
     if reply == "panic" { return Err("re-encoding an accepted UPDATE panicked".into()); }
     let toks: Vec<&str> = reply.split(' ').collect();
     if toks.len() != 4 || toks[0] != "ok" { return Err(format!("unexpected reply {}", trunc(reply))); }
-    for t in &toks[1..] { if t.ends_with("err") { return Err(format!("route {} did not succeed on an accepted UPDATE", &t[..1])); } }
+    for t in &toks[1..3] { if t.ends_with("err") { return Err(format!("route {} did not succeed on an accepted UPDATE", &t[..1])); } }
     let (dh, dn) = field(toks[1], "D")?.split_once('#').ok_or("D without #")?;
     let d = unhex(dh).ok_or("D hex")?;
     let mv = map_view(&src);
     let (mh, mn) = field(toks[2], "M")?.split_once('#').ok_or("M without #")?;
     let m = unhex(mh).ok_or("M hex")?;
-    let b = unhex(field(toks[3], "B")?).ok_or("B hex")?;
+    // the builder route may fail for one reason only: the attributes re-encode to more than fits
+    // MAX_PDU (known finding K12, reported below after everything else has been judged)
+    let b_failed = toks[3] == "Berr";
+    if b_failed && 23 + m.len() <= MAX_PDU { return Err("route B did not succeed on an accepted UPDATE".into()); }
+    let b = if b_failed { Vec::new() } else { unhex(field(toks[3], "B")?).ok_or("B hex")? };
     // In a two-octet session first everything but the AS number width (the width-dependent
     // attributes read four octets wide), then the property as it stands.
     let passes: &[Read] = if four { &[Read::Same] } else { &[Read::Widened, Read::Same] };
@@ -613,6 +617,7 @@ fn oracle_re(attrs: &[u8], reply: &str, four: bool) -> Result<(), String> {
             judge_list_w("map", &mv, &m, four, read)?;
             if mn.parse::<usize>().ok() != Some(m.len()) { return Err(format!("map: bytes_len {} but {} octets written", mn, m.len())); }
             // route 3: the builder's PDU
+            if b_failed { return Ok(()); }
             if b.len() < 23 || b[..16].iter().any(|x| *x != 0xff) || b[18] != 2 { return Err("builder: not an UPDATE header".into()); }
             if u16::from_be_bytes([b[16], b[17]]) as usize != b.len() { return Err("builder: header length differs from the octets written".into()); }
             if b.len() > MAX_PDU { return Err("builder: PDU over 4096 octets".into()); }
@@ -622,6 +627,9 @@ fn oracle_re(attrs: &[u8], reply: &str, four: bool) -> Result<(), String> {
             if b[23..] != m[..] { return Err("builder and map routes wrote different octets".into()); }
             Ok(())
         })().map_err(tag)?;
+    }
+    if b_failed {
+        return Err(format!("[K12] route B did not succeed on an accepted UPDATE: the attributes re-encode to {} octets, a PDU of {} > 4096 (PduTooLarge)", m.len(), 23 + m.len()));
     }
     Ok(())
 }
@@ -649,16 +657,18 @@ fn oracle_nl(f: Fam, wd: &[u8], ann: &[u8], attrs: &[u8], reply: &str) -> Result
     let w = kv(toks[1], "w=")?;
     let a = kv(toks[2], "a=")?;
     let o = kv(toks[3], "o=")?;
-    let (gw, wclean) = ref_items(f, &w);
-    let (ga, aclean) = ref_items(f, &a);
-    if !wclean || !aclean { return Err("the NLRI written do not all parse".into()); }
-    if gw.concat() != w || ga.concat() != a { return Err("the NLRI written are not in the canonical encoding of their values".into()); }
-    let norm = |items: &Vec<Vec<u8>>| -> Vec<Vec<u8>> {
-        // a prefix item is its own meaning; a FlowSpec item is its component octets (ref_items)
-        items.clone()
+    // (`*tol`: the list – received or written – reaches an item the RFCs do not define; the items before it are judged)
+    let (w_items, _, wtol) = ref_items_tol(f, wd);
+    let (a_items, _, atol) = ref_items_tol(f, ann);
+    let (gw, wclean, gwtol) = ref_items_tol(f, &w);
+    let (ga, aclean, gatol) = ref_items_tol(f, &a);
+    if (!wclean && !gwtol) || (!aclean && !gatol) { return Err("the NLRI written do not all parse".into()); }
+    if (!gwtol && gw.concat() != w) || (!gatol && ga.concat() != a) { return Err("the NLRI written are not in the canonical encoding of their values".into()); }
+    let same = |got: &Vec<Vec<u8>>, want: &Vec<Vec<u8>>, tol: bool| -> bool {
+        if tol { got.len() >= want.len() && got[..want.len()] == want[..] } else { got == want }
     };
-    if norm(&gw) != norm(&w_items) { return Err(format!("withdrawals differ: {} received, {} written", w_items.len(), gw.len())); }
-    if norm(&ga) != norm(&a_items) { return Err(format!("announcements differ: {} received, {} written", a_items.len(), ga.len())); }
+    if !same(&gw, &w_items, wtol) { return Err(format!("withdrawals differ: {} received, {} written", w_items.len(), gw.len())); }
+    if !same(&ga, &a_items, atol) { return Err(format!("announcements differ: {} received, {} written", a_items.len(), ga.len())); }
     judge_list("builder", &map_view(&src), &o)
 }
 
@@ -704,7 +714,7 @@ fn gen_val(rng: &mut Rng, code: u8) -> Vec<u8> {
 
 /// a recognised code for which a value of `n` octets is malformed
 fn bad_code_for(rng: &mut Rng, n: usize) -> u8 {
-    let pool: [u8; 17] = [1, 3, 4, 5, 6, 7, 8, 9, 10, 16, 18, 20, 21, 25, 32, 35, 128];
+    let pool: [u8; 19] = [1, 2, 3, 4, 5, 6, 7, 8, 9, 10, 16, 17, 18, 20, 21, 25, 32, 35, 128];
     for _ in 0..64 {
         let c = *rng.pick(&pool);
         if !ref_valid(c, &vec![0u8; n]) { return c; }
@@ -810,7 +820,7 @@ fn gen_nlri(rng: &mut Rng, f: Fam, max: usize) -> Vec<u8> {
         // other encodings of the same NLRI
         match var.shape {
             Shape::Fs if v.raw.len() < 240 && rng.chance(1, 8) => { let n = v.raw.len(); e.splice(k..k + 1, [0xf0u8, n as u8]); }
-            Shape::Rt if !v.raw.is_empty() && rng.chance(1, 6) => { e[k] -= rng.below(8) as u8; }
+            Shape::Rt if v.raw.len() > 4 && rng.chance(1, 6) => { e[k] -= rng.below(8) as u8; } // stays within 33..=96 bits (RFC 4684)
             Shape::Vpls if rng.chance(1, 6) => { e[k] = rng.u8(); e[k + 1] = rng.u8(); }
             _ => {}
         }
@@ -921,6 +931,24 @@ impl Prop for C07 {
         for i in 0..n_sec {
             let s = gen_section(rng);
             lines.push(re(&if i % 4 == 3 { mutate(rng, s) } else { s }));
+        }
+        // 4b. accepted UPDATEs around and over 4096 octets (from_octets takes them up to 65535): the direct and
+        //     map routes must succeed, the builder route up to a PDU of exactly 4096 octets (above: K12)
+        for &n in &[4000usize, 4068, 4069, 4070, 4071, 4080, 5000, 20000, 43000] {
+            let code = UNKNOWN[n % UNKNOWN.len()];
+            lines.push(re(&wire_attr(0xC0, code, &rng.bytes(n), true)));
+            // next to typed attributes; a malformed recognised attribute of that size
+            let mut s = gen_typed(rng, 1);
+            s.extend(wire_attr(0xC0, code, &rng.bytes(n - 20), true));
+            s.extend(gen_typed(rng, 8));
+            lines.push(re(&s));
+            lines.push(re(&wire_attr(0x40, 5, &rng.bytes(n), true)));
+        }
+        for k in [3usize, 4, 5, 9] {
+            // several attributes of ~1000 octets each: over the limit only together
+            let mut s = Vec::new();
+            for j in 0..k { s.extend(wire_attr(0xC0, UNKNOWN[j % UNKNOWN.len()], &rng.bytes(1010 + j), true)); }
+            lines.push(re(&s));
         }
         // 5. NLRI re-added: 13 families + the conventional sections, each without and with ADD-PATH
         let fams = all_fams();
